@@ -13,7 +13,7 @@ func init() {
 		Explanation: "Key-file parsing decided on all paths of the four scanner loops (age.ParseIdentities, age.ParseRecipients, cmd/age parseIdentities, parseRecipientsFile): (R18.1) an iteration continues with the next line only if the line starts with '#', is empty, produced a key that was appended, or (CLI recipients) is an unsupported-but-valid SSH key announced by a warning; " +
 			"(R18.2) a parser error returns a non-nil error carrying the line counter, which is incremented exactly once per scanned line before anything else; (R18.3) no key is an error and keys are appended in loop order; " +
 			"(R18.4) taint analysis: in the identity parsers nothing derived from the line reaches an error/log message anywhere in the call tree except integers and the HRP returned by bech32.Decode; in the recipient-file parsers neither the line nor the inner error reaches a message (file name, line number and the SSH key type aside); " +
-			"(R18.5) every size limit in front of a key-file parser is followed by a detection that it was hit; (R18.6) a line counts as a key only behind every Bech32 rejection and the exact HRP/length checks; (R18.7) the CLI takes a line for an unsupported SSH key only after decoding its whole key blob.",
+			"(R18.5) every size limit in front of a key-file parser is followed by a detection that it was hit; (R18.6) a line counts as a key only behind every Bech32 rejection and the exact HRP/length checks; (R18.7) the CLI takes a line for an unsupported SSH key only after decoding its whole key blob. (R18.8) the key type that excuses a line is the leading field of the very line the recipient parser refused.",
 		NotDecided:  "that bufio.Scanner splits lines as documented (CR LF, missing final newline); content of messages produced by external libraries (x/crypto/ssh).",
 		Assumptions: []string{"integer-typed values (runes, offsets, lengths) do not reproduce key material", "external functions propagate taint from any argument to any textual result"},
 		Technique:   "static analysis: per-iteration path enumeration over go/ssa, interprocedural taint with parameter-to-result summaries, who-limits-must-detect sibling rule",
